@@ -59,6 +59,20 @@ func main() {
 			for _, f := range p.libFuncs() {
 				fmt.Printf("%-60s mayDemote=%v returnsPrevClaim=%v\n", shortFn(f), m.mayDemote(f, nil, 0), m.returnsPrevClaim(f, 0))
 			}
+		} else if *dump == "callsites" {
+			m := p.model()
+			for _, f := range p.libFuncs() {
+				if f.Parent() != nil {
+					continue
+				}
+				n := len(m.callers[f])
+				exp := f.Object() != nil && f.Object().Exported()
+				ni := 0
+				for _, b := range f.Blocks {
+					ni += len(b.Instrs)
+				}
+				fmt.Printf("%2d sites exported=%-5v instrs=%4d params=%d %s\n", n, exp, ni, len(f.Params), shortFn(f))
+			}
 		} else if strings.HasPrefix(*dump, "guards:") {
 			m := p.model()
 			la := m.Locks()
